@@ -77,3 +77,50 @@ Proof.
   split; [apply resid_ok_exact|]. split; [apply row_scale_nonneg|].
   intros Ht. apply resid_ok_scale_mono; [exact Ht|apply row_scale_nonneg].
 Qed.
+
+(* ---------------------------------------------------------------- the user bias that applies *)
+Lemma foldin_user_bias_residuals b d vocab h :
+  foldin_user_bias b d vocab h =
+  (if Qeq_bool (Qofnat (length h) + d) 0 then 0 else Qsum (hist_residuals b vocab h) / (Qofnat (length h) + d)).
+Proof. reflexivity. Qed.
+
+Lemma foldin_user_bias_ignores_stored b bu d vocab h :
+  foldin_user_bias (with_user_bias b bu) d vocab h = foldin_user_bias b d vocab h.
+Proof. reflexivity. Qed.
+
+Lemma balanced_history_bias_zero b d vocab h :
+  Qsum (hist_residuals b vocab h) == 0 -> foldin_user_bias b d vocab h == 0.
+Proof.
+  intro H. rewrite foldin_user_bias_residuals.
+  destruct (Qeq_bool (Qofnat (length h) + d) 0); [reflexivity|].
+  unfold Qdiv. rewrite H. ring.
+Qed.
+
+Theorem history_bias_applies_l b bu d vocab h :
+  applicable_user_bias b d vocab UFold h = foldin_user_bias b d vocab h /\
+  foldin_user_bias (with_user_bias b bu) d vocab h = foldin_user_bias b d vocab h /\
+  (Qsum (hist_residuals b vocab h) == 0 -> applicable_user_bias b d vocab UFold h == 0).
+Proof.
+  split; [reflexivity|]. split; [apply foldin_user_bias_ignores_stored|]. apply balanced_history_bias_zero.
+Qed.
+
+(* a query that folds its history in is judged without reading the stored user biases at all *)
+Theorem fold_query_ignores_stored_bias_l tol tolb k lam ivocab items P b bu d prefer un h cands fold obs :
+  user_path prefer (is_some P) un (length h) = UFold ->
+  query_ok_explicit tol tolb k lam ivocab items P (with_user_bias b bu) d prefer un (Some h) cands fold obs =
+  query_ok_explicit tol tolb k lam ivocab items P b d prefer un (Some h) cands fold obs.
+Proof.
+  intro Hp. unfold query_ok_explicit. rewrite Hp. destruct fold as [[row x]|]; reflexivity.
+Qed.
+
+(* with a history bias of exactly 0 the score of a known candidate is dot product + global + item bias *)
+Theorem zero_history_bias_scores_l vocab k items b d h u cands :
+  applicable_user_bias b d vocab UFold h == 0 ->
+  forall j i n, nth_error cands j = Some i -> number vocab i = Some n ->
+    exists s, nth_error (score_explicit vocab k items b u (applicable_user_bias b d vocab UFold h) cands) j = Some (i, Some s) /\
+              s == dot (nth n items (vzero k)) u + (b_global b + nth n (b_item b) 0).
+Proof.
+  intros Hz j i n Hj Hn.
+  destruct (score_is_dot_plus_bias_explicit vocab k items b u (applicable_user_bias b d vocab UFold h) cands) as [_ Hs].
+  rewrite (Hs j i Hj), Hn. eexists. split; [reflexivity|]. rewrite Hz. ring.
+Qed.
